@@ -118,7 +118,7 @@ def r25c(ctx, run):
             self.val = val
             super().__init__(order=lambda a, b: (value(a, val) > value(b, val)) - (value(a, val) < value(b, val)),
                              funcs={"TextSize::from": lambda i, a: a[0], "u32::from": lambda i, a: a[0], "usize::from": lambda i, a: a[0],
-                                    "iter::once": lambda i, a: [a[0]], "std::iter::once": lambda i, a: [a[0]]})
+                                    "Vec::with_capacity": lambda i, a: [], "Vec::new": lambda i, a: [], "iter::once": lambda i, a: [a[0]], "std::iter::once": lambda i, a: [a[0]]})
 
         def eval(self, e, env):
             if e["k"] == "cast":
@@ -231,13 +231,17 @@ def r25d(ctx, run):
                 return ("pyfunc", lambda *a, f_=self.funcs[e["p"]]: f_(self, list(a)))
             if e["k"] == "cast":
                 v = self.eval(e["e"], env)
-                if isinstance(v, int) and not isinstance(v, bool):
-                    return v
                 if isinstance(v, str) and len(v) == 1:
-                    return ord(v)
+                    v = ord(v)
+                if isinstance(v, int) and not isinstance(v, bool):
+                    # `as` truncates to the target's width
+                    width = {"u8": 8, "i8": 8, "u16": 16, "i16": 16, "u32": 32, "i32": 32}.get(str(e.get("ty")))
+                    return v & ((1 << width) - 1) if width and v >= 0 else v
             if e["k"] == "lit" and e.get("t") == "char":
                 lit = e["v"][1:-1] if e["v"].startswith("'") else e["v"]
                 return {"\\n": "\n", "\\r": "\r", "\\t": "\t"}.get(lit, lit)
+            if e["k"] == "lit" and e.get("t") == "byte":
+                return int(e["v"])
             if e["k"] == "lit" and isinstance(e.get("v"), str) and e["v"].startswith("b'"):
                 lit = e["v"][2:-1]
                 return ord({"\\n": "\n", "\\r": "\r"}.get(lit, lit))
@@ -323,10 +327,12 @@ def r25d(ctx, run):
                     i = bisect.bisect_left(recv, args[0])
                     return Variant("Ok", {"0": i}) if i < len(recv) and recv[i] == args[0] else Variant("Err", {"0": i})
             return super().default_method(recv, m, args, e)
-    texts = ["ab\ncd\nef", "\u00e9\na", "a\u2615\n\nb\u00e9c\nd", "\n", "x", "\u00e9\u00e9\n\u00e9\n\n\u00e9", "a\r\nb\n"]
+    # ... and characters whose code point, or one of whose UTF-8 bytes, resembles a line break without being one (U+010A, U+4E0A end in 0x0A; U+0A0A)
+    texts = ["ab\ncd\nef", "\u00e9\na", "a\u2615\n\nb\u00e9c\nd", "\n", "x", "\u00e9\u00e9\n\u00e9\n\n\u00e9", "a\r\nb\n", "a\u010ab\nc\u4e0ad\n\u0a0ae"]
     n, bad = 0, None
     funcs = {"TextSize::from": lambda i, a: a[0], "TextSize::new": lambda i, a: a[0], "u32::from": lambda i, a: a[0], "usize::from": lambda i, a: a[0],
-             "iter::once": lambda i, a: [a[0]], "std::iter::once": lambda i, a: [a[0]], "TextSize::of": lambda i, a: len(a[0].encode())}
+             "iter::once": lambda i, a: [a[0]], "std::iter::once": lambda i, a: [a[0]], "TextSize::of": lambda i, a: len(a[0].encode()),
+             "Vec::with_capacity": lambda i, a: [], "Vec::new": lambda i, a: []}
     for t in texts:
         b = t.encode()
         it = CI(funcs=dict(funcs))
